@@ -490,6 +490,19 @@ func tbl(r *Run, focus string) {
 			c.addr.IP = ip
 			r.Probe("local-network-contact")
 		}
+		if tw.secure && !local && c.addr.IP.To4() == nil && r.Rng.Intn(4) == 0 {
+			// IPv6 unique-local (fc00::/7) and site-local-looking addresses are *not* among
+			// BEP 42's exemptions: the id rule applies to them like to any global address
+			b0 := []byte{0xfc, 0xfd, 0xfd, 0xfe}[r.Rng.Intn(4)]
+			ip := make(net.IP, 16)
+			r.Rng.Read(ip)
+			ip[0] = b0
+			if b0 == 0xfe {
+				ip[1] = 0xc0 | ip[1]&0x3f // fec0::/10, deprecated site-local
+			}
+			c.addr.IP = ip
+			r.Probe("ipv6-ula-contact")
+		}
 		if prefix >= 0 {
 			c.id = IDWithPrefix(r.Rng, tw.sid, prefix)
 		} else {
